@@ -38,40 +38,20 @@ Theorem C13_inserted_points_enclosed_tight : forall P H, 0 < P -> 0 < H -> FILL 
 Proof. exact c13_ins_list_spec. Qed.
 Print Assumptions C13_inserted_points_enclosed_tight.
 
-(* faithful normal branch: every corner longitude lies in the reported interval and each latitude bound is attained
-   by a corner or an edge extreme *)
-Theorem C13_normal_lon_enclose_lat_tight : forall P H, 0 < P -> 0 < H -> FILL < - H -> forall es,
+(* normal branch (the code since fix bb1965a6: node, then both extremes of the edge): every corner latitude, both
+   extremes of every edge and every corner longitude are enclosed, and each latitude bound is attained by a corner or an
+   edge extreme (this statement was refuted for the previous branch by the face (0,40) (60,40.5) (60,60) (0,60)) *)
+Theorem C13_normal_encloses_and_tight : forall P H, 0 < P -> 0 < H -> FILL < - H -> forall es,
   Forall (c13_edge_ok H) es ->
   let b := c13_bounds_normal P H es in
-  (forall e, In e es -> c13_lon_in b (c13_norm P (c13_lon1 e)) = true) /\
-  (es <> [] ->
-   (exists e, In e es /\ (c13_lat_lo b = c13_lat1 e \/ c13_lat_lo b = c13_emax e \/ c13_lat_lo b = c13_emin e)) /\
-   (exists e, In e es /\ (c13_lat_hi b = c13_lat1 e \/ c13_lat_hi b = c13_emax e \/ c13_lat_hi b = c13_emin e))).
-Proof. exact c13_normal_lon_and_tight. Qed.
-Print Assumptions C13_normal_lon_enclose_lat_tight.
-
-(* ... but it does NOT enclose every corner latitude: quadrilateral (0,40) (60,40.5) (60,60) (0,60) degrees, truthful
-   flags, reported lower bound 40.5 (defect of /repo, reproduced on the real code by the harness) *)
-Theorem C13_normal_lat_enclose_refuted :
-  let P := 360000000 in let H := 90000000 in
-  Forall (c13_edge_ok H) c13_witness /\ Forall c13_truthful c13_witness /\
-  exists e, In e c13_witness /\ c13_lat_in (c13_bounds_normal P H c13_witness) (c13_lat1 e) = false.
-Proof. exact c13_normal_lat_refuted. Qed.
-Print Assumptions C13_normal_lat_enclose_refuted.
-
-(* the repaired normal branch (insert the node, then both extremes) encloses every corner latitude, both extremes of
-   every edge and every corner longitude, and its bounds are attained *)
-Theorem C13_repaired_encloses : forall P H, 0 < P -> 0 < H -> FILL < - H -> forall es,
-  Forall (c13_edge_ok H) es ->
-  let b := c13_bounds_repaired P H es in
   (forall e, In e es ->
      c13_lat_lo b <= c13_lat1 e <= c13_lat_hi b /\ c13_lat_lo b <= c13_emin e /\ c13_emax e <= c13_lat_hi b /\
      c13_lon_in b (c13_norm P (c13_lon1 e)) = true) /\
   (es <> [] ->
    (exists e, In e es /\ (c13_lat_lo b = c13_lat1 e \/ c13_lat_lo b = c13_emax e \/ c13_lat_lo b = c13_emin e)) /\
    (exists e, In e es /\ (c13_lat_hi b = c13_lat1 e \/ c13_lat_hi b = c13_emax e \/ c13_lat_hi b = c13_emin e))).
-Proof. exact c13_repaired_encloses. Qed.
-Print Assumptions C13_repaired_encloses.
+Proof. exact c13_normal_encloses. Qed.
+Print Assumptions C13_normal_encloses_and_tight.
 
 (* pole branches: the enclosed pole's latitude is reported, every corner latitude and the far extreme of every edge are
    enclosed; with the pole on no edge the full circle [0, P] is reported, otherwise every corner longitude is enclosed *)
